@@ -467,7 +467,7 @@ def sampled_case(draw):
     return {"part": "recv", "cfg": cfg, "n": n, "seg": seg, "size": size, "pat": draw(st.binary(min_size=1, max_size=16)), "timeline": tl}
 
 
-PARAMS = {"quick": 400, "thorough": 12000}
+PARAMS = {"quick": 1200, "thorough": 20000}
 
 
 def shard(ctx):
